@@ -34,10 +34,11 @@ KINDS = {
     "pow2": (1, lambda a: p.Power(a, 2)), "pow3": (1, lambda a: p.Power(a, 3)), "pow0": (1, lambda a: p.Power(a, 0)),
     "powm1": (1, lambda a: p.Power(a, -1)), "powm2": (1, lambda a: p.Power(a, -2)), "powy": (2, p.Power),
     "cse": (1, lambda a: p.CommonSubexpression(a)), "call": (1, lambda a: p.Call(p.Variable("f"), (a,))),
+    "pow1": (1, lambda a: p.Power(a, 1)), "fdiv": (2, p.FloorDiv), "rem": (2, p.Remainder),
 }
-POLY = ["sum2", "sum3", "prod2", "prod3", "neg", "pow2", "pow3"]
+POLY = ["sum2", "sum3", "prod2", "prod3", "neg", "pow2", "pow3", "pow1"]
 RATIONAL = POLY + ["quot", "powm1", "powm2", "pow0"]
-ALLK = RATIONAL + ["powy", "cse", "call"]
+ALLK = RATIONAL + ["powy", "cse", "call", "fdiv", "rem"]
 LEAVES = ["x", "y", "z", 0, 1, -1, 2, 3]
 
 
@@ -123,6 +124,9 @@ def _becomes_same_class():
 
 
 HAND = _becomes_same_class() + [
+    ("fdiv", "x", ("prod2", 1, 1)), ("rem", "x", ("prod2", 1, 1)), ("fdiv", ("quot", "x", 2), ("sum2", 1, 0)), ("sum2", ("fdiv", "x", 1), "y"),
+    ("prod2", "x", ("pow1", ("sum2", "y", 1))), ("pow2", ("pow1", ("sum2", "x", "y"))), ("sum3", ("pow1", ("sum2", "x", 1)), ("neg", "x"), "y"),
+    ("pow1", ("prod2", ("sum2", "x", 1), "y")),
     ("pow2", ("prod2", "x", "y")), ("pow3", ("prod3", "x", "y", 2)), ("powm1", ("sum2", "x", "y")), ("powm2", ("sum2", "x", 1)),
     ("pow0", ("sum2", "x", "y")), ("prod3", "x", ("sum2", "x", "y"), ("sum2", "y", "z")),
     ("prod3", 2, ("sum2", "x", 1), ("sum2", "x", -1)), ("prod2", ("sum2", "x", "y"), ("sum2", "x", ("neg", "y"))),
